@@ -33,7 +33,7 @@ INVARIANT Export
 {props}
 """
 _info: Dict[str, Any] = {}
-NQUERIES = 10
+NQUERIES = 11
 
 
 def normalise(sink: List[Dict[str, Any]]) -> List[Dict[str, Any]]:
@@ -233,6 +233,11 @@ def _replay(rec: Dict[str, Any]) -> List[Tuple[str, Dict[str, Any], str]]:
                                     v["touched-by-caller"] = True
                 elif h["act"] == "recompile":
                     _other_environment()
+                    for k in range(70):       # texts the environment refuses leave nothing behind in it
+                        try:
+                            env.compile("$[?((@.a == " + "(" * (k % 3) + "]")
+                        except Exception:  # noqa: BLE001
+                            pass
                     p2 = env.compile("".join(list(text)))      # an equal text, another string object
                     if not (p2 == path) or hash(p2) != hash(path) or str(p2) != str(path):
                         disc = "recompiled-query-not-equal"
